@@ -13,6 +13,20 @@ func intrinsicTable() map[string]intrinsic {
 	for _, f := range extraIntrinsics {
 		f(m)
 	}
+	// every access to a collection counts as one store access (the quantity that gas metering is a function of)
+	for k, in := range m {
+		if !strings.Contains(k, "cosmossdk.io/collections") {
+			continue
+		}
+		switch k[strings.LastIndex(k, ".")+1:] {
+		case "Get", "Set", "Has", "Remove", "Iterate", "Walk", "Peek", "Next", "MatchExact", "IterateRaw", "Clear":
+			orig := in
+			m[k] = func(ex *Exec, fr *frame, cc *ssa.CallCommon, a []Value) Value {
+				ex.StoreOps++
+				return orig(ex, fr, cc, a)
+			}
+		}
+	}
 	return m
 }
 
